@@ -93,6 +93,9 @@ pub enum In {
 pub struct Case {
     pub key_start: u16,
     pub inputs: Vec<In>,
+    /// HTTP part: requests to the real daemon (then `inputs` is empty)
+    #[serde(default)]
+    pub http: Option<Vec<super::c16h::HttpIn>>,
 }
 
 const NASTY: &[&str] = &[
@@ -109,7 +112,7 @@ const NASTY: &[&str] = &[
     "version", "4", "3", "type", "publish", "withdraw", "list", "issue", "revoke", "error_response", "1101", "class_name", "0",
 ];
 
-fn nasty(n: u8) -> String {
+pub fn nasty(n: u8) -> String {
     let i = n as usize % (NASTY.len() + 3);
     match i.checked_sub(NASTY.len()) {
         None => NASTY[i].to_string(),
@@ -200,7 +203,7 @@ fn tokens(s: &str) -> Vec<String> {
     out
 }
 
-fn mutate_text(s: &str, muts: &[TextMut]) -> String {
+pub fn mutate_text(s: &str, muts: &[TextMut]) -> String {
     let mut t = tokens(s);
     for m in muts {
         if t.is_empty() {
@@ -285,7 +288,7 @@ fn containers(v: &mut Value, objs: bool, out: &mut Vec<*mut Value>) {
     }
 }
 
-fn mutate_json(mut v: Value, muts: &[JsonMut]) -> Value {
+pub fn mutate_json(mut v: Value, muts: &[JsonMut]) -> Value {
     for m in muts {
         match m {
             JsonMut::Leaf(s, n) => {
@@ -358,7 +361,7 @@ fn byte_mut() -> impl Strategy<Value = ByteMut> {
     ]
 }
 
-fn text_mut() -> impl Strategy<Value = TextMut> {
+pub fn text_mut() -> impl Strategy<Value = TextMut> {
     prop_oneof![
         8 => (any::<u16>(), any::<u8>()).prop_map(|(a, b)| TextMut::Replace(a, b)),
         2 => any::<u16>().prop_map(TextMut::Delete),
@@ -368,7 +371,7 @@ fn text_mut() -> impl Strategy<Value = TextMut> {
     ]
 }
 
-fn json_mut() -> impl Strategy<Value = JsonMut> {
+pub fn json_mut() -> impl Strategy<Value = JsonMut> {
     prop_oneof![
         8 => (any::<u16>(), any::<u8>()).prop_map(|(a, b)| JsonMut::Leaf(a, b)),
         1 => any::<u16>().prop_map(JsonMut::DropKey),
@@ -677,10 +680,28 @@ impl Prop for C16 {
             Tier::Quick => 20..80,
             Tier::Thorough => 40..200,
         };
-        (any::<u16>(), vec(input(), n)).prop_map(|(key_start, inputs)| Case { key_start, inputs }).boxed()
+        let hn = match tier {
+            Tier::Quick => 20..70,
+            Tier::Thorough => 40..160,
+        };
+        // (for experiments: KVH_C16_ONLY=http restricts the run to the HTTP part)
+        let (wa, wb) = match std::env::var("KVH_C16_ONLY").as_deref() {
+            Ok("http") => (0, 1),
+            Ok("sig") => (1, 0),
+            _ => (4, 1),
+        };
+        prop_oneof![
+            wa => (any::<u16>(), vec(input(), n)).prop_map(|(key_start, inputs)| Case { key_start, inputs, http: None }),
+            wb => vec(super::c16h::http_in(), hn).prop_map(|h| Case { key_start: 0, inputs: vec![], http: Some(h) }),
+        ]
+        .boxed()
     }
 
     fn run(case: &Case, ctx: &Ctx) -> Outcome {
+        if let Some(h) = &case.http {
+            let known = if ctx.strict { vec![] } else { ctx.known.iter().filter(|k| k.property == Self::ID && k.status == "known").map(|k| k.signature.clone()).collect() };
+            return super::c16h::run(h, known);
+        }
         let sw = match SigWorld::new(WorldCfg::default(), case.key_start as usize) {
             Ok(w) => w,
             Err(f) => return fail_outcome(f, "setup"),
